@@ -175,7 +175,7 @@ def run(ctx):
     if not binp:
         return
     thorough = ctx.thorough
-    n_pol = 500 if thorough else 45
+    n_pol = 500 if thorough else 36
     runs_per = 6 if thorough else 3
     depth = 4 if thorough else 3
 
